@@ -342,6 +342,62 @@ def rule_native_results_normalised(ctx, rep, rid: str) -> None:
                 rep.ok(rid, key)
 
 
+def _may_be_none(e: ast.AST, f: Func, depth: int = 0) -> bool:
+    if isinstance(e, ast.Constant) and e.value is None:
+        return True
+    if isinstance(e, ast.IfExp):
+        return _may_be_none(e.body, f, depth) or _may_be_none(e.orelse, f, depth)
+    if isinstance(e, ast.BoolOp) and isinstance(e.op, ast.Or):
+        return _may_be_none(e.values[-1], f, depth)
+    if isinstance(e, ast.Name) and depth < 2:
+        ds = _defs_of(f, e.id)
+        return any(_may_be_none(d, f, depth + 1) for d in ds)
+    return False
+
+
+def rule_no_none_into_script_values(ctx, rep, rid: str) -> None:
+    rep.rule(rid, "no call passes a possibly-None host value for a parameter that the interpreter treats as a script value (this, arguments), unless the callee maps None to undefined itself; such parameters do not default to None", floor=20)
+    vmcls = ctx.facts.vm_dispatcher()[0].cls
+    from ..util import bind_args
+
+    def normalises(m: Func, p: str) -> bool:
+        txt = " ; ".join(norm(s) for s in m.body())
+        return f"{p} if {p} is not None else UNDEFINED" in txt or f"if {p} is None" in txt or f"{p} or UNDEFINED" in txt
+
+    value_params: Dict[int, List[str]] = {}
+    for m in vmcls.methods.values():
+        ps = []
+        a = m.node.args
+        defaults = dict(zip([x.arg for x in a.args][len(a.args) - len(a.defaults):], a.defaults))
+        for x in a.args:
+            if x.annotation is not None and norm(x.annotation) in ("JSValue", "Optional[JSValue]") and x.arg in ("this_val", "this_value", "value", "new_target"):
+                ps.append(x.arg)
+                d = defaults.get(x.arg)
+                key = f"{m.qual}:{x.arg}:default"
+                if d is not None and isinstance(d, ast.Constant) and d.value is None and not normalises(m, x.arg) and x.arg != "new_target":
+                    rep.bad(rid, key, f"{m.qual}: parameter {x.arg} is a script value but defaults to Python None and is used without mapping None to undefined", m.loc)
+                else:
+                    rep.ok(rid, key)
+        value_params[id(m)] = ps
+    for cs in ctx.cg.sites:
+        if cs.kind != "resolved":
+            continue
+        for t in cs.targets:
+            ps = value_params.get(id(t))
+            if not ps:
+                continue
+            b = bind_args(cs.call, t)
+            for p in ps:
+                a = b.get(p)
+                if a is None or p == "new_target":
+                    continue
+                key = f"{cs.func.qual}->{t.name}({p}={short(a, 30)})"
+                if _may_be_none(a, cs.func) and not normalises(t, p):
+                    rep.bad(rid, key, f"{cs.func.qual} passes {short(a, 40)}, which can be Python None, as `{p}` of {t.name}, and {t.name} does not map None to undefined: script code can then read a value of no JavaScript type (e.g. through `this`)", f"{cs.func.module.rel}:{cs.line}")
+                else:
+                    rep.ok(rid, key)
+
+
 # ------------------------------------------------------------------------ C08
 def rule_inherited_visibility(ctx, rep, rid: str) -> None:
     rep.rule(rid, "operations that must see inherited properties (in, property read, accessor lookup, instanceof, isPrototypeOf) consult the prototype link; own-only operations (hasOwnProperty, keys/values/entries) do not", floor=5)
